@@ -3,7 +3,20 @@
 // The harness loads the results; the functions keep math/rand's panics on bad bounds.
 package vrand
 
-import "sync"
+import (
+	mrand "math/rand"
+	"sync"
+)
+
+// Generators of their own (rand.New(rand.NewSource(seed))) are not scripted: they are what
+// math/rand makes of the seed the code gives them.
+type (
+	Rand   = mrand.Rand
+	Source = mrand.Source
+)
+
+func NewSource(seed int64) mrand.Source { return mrand.NewSource(seed) }
+func New(src mrand.Source) *mrand.Rand  { return mrand.New(src) }
 
 var (
 	mu     sync.Mutex
@@ -14,7 +27,7 @@ var (
 )
 
 // SetFloat sets what Float32 returns from now on.
-func SetFloat(f float32) { mu.Lock(); f32 = f; mu.Unlock() }
+func SetFloat(f float32) { mu.Lock(); f32 = f; seeded = false; mu.Unlock() }
 
 // Push appends results for the next Intn/Int63n calls (each is reduced modulo the bound).
 func Push(xs ...int64) { mu.Lock(); draws = append(draws, xs...); mu.Unlock() }
@@ -23,6 +36,7 @@ func Push(xs ...int64) { mu.Lock(); draws = append(draws, xs...); mu.Unlock() }
 func Reset() {
 	mu.Lock()
 	draws = nil
+	seeded = false
 	f32 = 0
 	Calls = 0
 	FCalls = 0
@@ -47,7 +61,30 @@ func next(n int64) int64 {
 	return d
 }
 
-func Float32() float32 { mu.Lock(); defer mu.Unlock(); FCalls++; return f32 }
+// SetSeeded makes Float32 return an independent pseudo-random sequence from now on (for the
+// independence probe of C14); Reset / SetFloat go back to the scripted value.
+func SetSeeded(seed uint64) { mu.Lock(); seeded = true; state = seed; mu.Unlock() }
+
+var (
+	seeded bool
+	state  uint64
+)
+
+func Float32() float32 {
+	mu.Lock()
+	defer mu.Unlock()
+	FCalls++
+	if seeded {
+		// splitmix64
+		state += 0x9e3779b97f4a7c15
+		z := state
+		z = (z ^ (z >> 30)) * 0xbf58476d1ce4e5b9
+		z = (z ^ (z >> 27)) * 0x94d049bb133111eb
+		z ^= z >> 31
+		return float32(z>>40) / float32(1<<24)
+	}
+	return f32
+}
 
 func Int63n(n int64) int64 {
 	if n <= 0 {
